@@ -19,7 +19,7 @@ ASSUMPTIONS = ["grid model: contiguous steps from ts[0]; every step but the last
 REQUIRED_COUNTERS = ["steps", "outputs_inside_step", "outputs_on_grid", "variant_shared_outputs", "ts_list", "ts_f32",
                      "y_f32", "several_outputs_one_step", "dt_larger_than_T", "outputs_inside_clipped_last_step",
                      "first_gap_smaller_than_dt", "default_dtype_float32_cases", "list_ts_f64_state_under_default_f32",
-                     "via_sdeint_adjoint"]
+                     "via_sdeint_adjoint", "float32_brownian_float64_state"]
 THRESHOLDS = {"interp_f64": 1e-13, "interp_f32": 2e-5}
 
 
@@ -83,6 +83,10 @@ def run_case(case):
 
     # the process-wide default dtype is not part of the contract: a list of times is taken in y0's dtype whatever
     # torch.get_default_dtype() says (the harness default is float64; a third of the cases run under float32)
+    # mixed precision the library accepts: element-wise diffusion, float64 state driven by a float32 Brownian motion -
+    # the result is still in y0's dtype
+    bm_f32 = cell["noise_type"] == "diagonal" and ydt == torch.float64 and rng.random() < 0.3
+    cnt["float32_brownian_float64_state"] = int(bm_f32)
     # the same grid contract holds for the forward pass of sdeint_adjoint (a quarter of the cases)
     via_adjoint = rng.random() < 0.25
     cnt["via_sdeint_adjoint"] = int(via_adjoint)
@@ -94,7 +98,8 @@ def run_case(case):
         ts = as_ts(lst)
         pr = probes.SolverProbe()
         ts_t = ts if torch.is_tensor(ts) else torch.tensor(ts, dtype=ydt)
-        bm = torchsde.BrownianInterval(t0=float(ts_t[0]), t1=float(ts_t[-1]), size=(B, sde.m), dtype=ydt,
+        bm = torchsde.BrownianInterval(t0=float(ts_t[0]), t1=float(ts_t[-1]), size=(B, sde.m),
+                                       dtype=torch.float32 if bm_f32 else ydt,
                                        entropy=entropy, levy_area_approximation=zoo.levy_for(cell["method"]))
         with env.default_dtype(torch.float32 if under_f32 else torch.float64), pr.installed():
             ys = zoo.solve(cell, sde, y0, ts, dt, bm=bm, adjoint=via_adjoint)
@@ -106,7 +111,7 @@ def run_case(case):
 
     ys, pr, ts_t = run(tsl)
     steps = pr.steps
-    ctx = f"cell={zoo.cell_name(cell)} ts={tsl} dt={dt} tdt={tdt} ydt={ydt} B={B} d={d}"
+    ctx = f"cell={zoo.cell_name(cell)} ts={tsl} dt={dt} tdt={tdt} ydt={ydt} B={B} d={d} f32_bm={bm_f32}"
     cnt["steps"] = len(steps)
     cnt["ts_list"] = int(tdt in ("list", "tuple"))
     cnt["ts_f32"] = int(tdt == "f32")
@@ -137,6 +142,11 @@ def run_case(case):
                 eps32 = 1.2e-7 * max(1.0, abs(s["t1"])) if ts_t.dtype == torch.float32 else 0.0
                 if not (0 < s["t1"] - s["t0"] <= dt * (1 + 1e-6) + 4 * eps32):
                     bad = f"last step length {s['t1'] - s['t0']!r} > dt={dt}"
+    # the time arithmetic is done in the dtype of ts (a list is taken in y0's dtype): all logged step times carry it
+    for i, s_ in enumerate(steps):
+        for nm in ("t0_raw", "t1_raw"):
+            if torch.is_tensor(s_[nm]) and s_[nm].dtype != ts_t.dtype and not bad:
+                bad = f"step {i}: {nm} has dtype {s_[nm].dtype}, the times were given as {ts_t.dtype}"
     if not steps:
         bad = "no steps logged"
     if bad:
